@@ -105,7 +105,7 @@ EC_POINT* OSSL::byteString2pt(const ByteString& byteString, const EC_GROUP* grp)
 {
 	ByteString raw = DERUTIL::octet2Raw(byteString);
 	size_t len = raw.size();
-	if (len == 0) return NULL;
+	if (len == 0 || grp == NULL) return NULL;
 
 	EC_POINT* pt = EC_POINT_new(grp);
 	if (!EC_POINT_oct2point(grp, pt, &raw[0], len, NULL))
